@@ -92,33 +92,97 @@ def with_term(rng, mk, **kw):
     return norm(p)
 
 
+import itertools
+ALLSHAPES = ["".join(t) for n in range(4) for t in itertools.product("mflo", repeat=n)]
+
+
+def matrix(rng, tier, mk_terms, add, nts=(2, 3, 4), nt1=False):
+    """Systematic part of a profile (the rest is random): (a) every chain shape of length 0..3,
+    (b) every kernel family x terminal constructor x chunk path (c = 1 / c > 1); thorough: the
+    full product shape x terminal constructor x chunk path."""
+    def one(sh, mk, c):
+        src = rng.choice(("vec", "iterx", "iter") if len(sh) == 3 else ("vec", "iterx", "iter", "slice", "range"))
+        if src in ("slice", "range") and len(sh) > 2:
+            src = "vec"
+        p = gen_prog(rng, src=src, shape=sh, n=rng.choice([5, 8, 13, 24]), nt=(1 if nt1 else rng.choice(nts)),
+                     cs=rng.choice([("cs", c), ("cs", c), ("csmin", c)]))
+        p["term"] = mk(rng, src, sh)
+        add(norm(p), "rand" if not nt1 else "free")
+    if tier == "quick":
+        for i, sh in enumerate(ALLSHAPES):
+            one(sh, mk_terms[i % len(mk_terms)], rng.choice([1, 2, 3]))
+        fam = shapes_by_family(3)
+        for f in sorted(fam):
+            for mk in mk_terms:
+                for c in (1, rng.choice([2, 3])):
+                    one(rng.choice(fam[f]), mk, c)
+    else:
+        for sh in ALLSHAPES:
+            for mk in mk_terms:
+                for c in (1, rng.choice([2, 3, 5])):
+                    one(sh, mk, c)
+
+
+def big_jobs(rng, tier, mk_terms, add):
+    """Programs over 10^4..3*10^5 elements (digests instead of sequences): thresholds such as
+    2^16 / 2^17 elements and the growth of SplitVec fragments are only crossed here."""
+    sizes = [70000, 140000] if tier == "quick" else [20000, 66000, 70000, 132000, 140000, 300000]
+    for n in sizes:
+        for mk in mk_terms:
+            src = rng.choice(("vec", "iterx", "iter", "range"))
+            sh = rng.choice(["m", "mm", "m", "f", "o", "l", "mf", "fm"] if src != "range" else ["m", "f", ""])
+            p = gen_prog(rng, src=src, shape=sh, n=8, nt=rng.choice([None, 4, 8]), cs=rng.choice([None, ("cs", 64), ("csmin", 16), ("cs", 1024)]))
+            if any(o["k"] == "flat" for o in p["ops"]):
+                for o in p["ops"]:
+                    if o["k"] == "flat":
+                        o["tt"] = [x[:2] for x in o["tt"]]
+            p["n"] = n
+            p["term"] = mk(rng, src, sh)
+            add(norm(p), "free", logcalls=0, timeout_ms=180000)
+
+
 def jobs_for(prop, tier, seed):
     rng = random.Random(seed * 1000003 + int(prop[1:]))
-    n = {"quick": 220, "thorough": 2400}[tier]
+    n = {"quick": 160, "thorough": 1600}[tier]
     jobs = []
 
     def add(p, mode=None, **kw):
         jobs.append(mk_job(len(jobs) + 1, p, mode or mode_mix(rng), rng, **kw))
 
     if prop == "C01":
+        matrix(rng, tier, [lambda r, s_, sh: collect_term(r, s_, sh)], add)
+        big_jobs(rng, tier, [lambda r, s_, sh: {"k": "collect_vec"}, lambda r, s_, sh: {"k": "collect"},
+                             lambda r, s_, sh: {"k": "collect_into", "tk": r.choice(["split", "vec", "fixed"])}], add)
         for _ in range(n):
             add(with_term(rng, lambda r, s, sh: collect_term(r, s, sh)))
     elif prop == "C02":
+        matrix(rng, tier, [find_term], add)
         for _ in range(n):
             add(with_term(rng, find_term, sizes=(0, 1, 2, 5, 8, 13, 24, 40, 64)))
     elif prop == "C03":
+        matrix(rng, tier, [reduce_term, lambda r, s_, sh: {"k": "reduce", "op": r.choice(["add", "xor", "min", "max"])}], add)
+        big_jobs(rng, tier, [lambda r, s_, sh: {"k": "reduce", "op": "add"}], add)
         for _ in range(n):
             add(with_term(rng, reduce_term))
     elif prop == "C04":
+        matrix(rng, tier, [lambda r, s_, sh: {"k": "count"}, lambda r, s_, sh: {"k": "for_each"}], add)
+        big_jobs(rng, tier, [lambda r, s_, sh: {"k": "count"}], add)
         for _ in range(n):
             add(with_term(rng, lambda r, s, sh: {"k": r.choice(["count", "for_each"])}))
     elif prop == "C05":
+        matrix(rng, tier, [lambda r, s_, sh: collect_term(r, s_, sh), lambda r, s_, sh: {"k": "collect_x"},
+                           lambda r, s_, sh: {"k": "count"}, lambda r, s_, sh: {"k": "for_each"},
+                           reduce_term, find_term], add)
         for i in range(n):
             src = rng.choice(("iter", "iterx", "iter", "iterx") + ALLSRC)
             p = with_term(rng, lambda r, s, sh: any_term(r, s, sh), src=src)
             m = mode_mix(rng, 0.5)
             add(p, m, spin=(rng.choice([0, 50, 400]) if m == "free" else 0))
     elif prop == "C06":
+        def ci(r, s_, sh):
+            return {"k": "collect_into", "tk": r.choice(["vec", "split", "fixed"]),
+                    "pre": [r.randrange(V) for _ in range(r.choice([0, 1, 2, 3, 5, 9]))], "cap": r.choice([0, 0, 1, 4, 100])}
+        matrix(rng, tier, [ci], add)
         for _ in range(n):
             shape = rng.choice(["", "m", "mm", "m", None, None])
             src = rng.choice(("iterx", "iter", "vec", "range", "slice", "iterx", "deque", "btree"))
@@ -134,6 +198,8 @@ def jobs_for(prop, tier, seed):
             p["term"] = t
             add(norm(p))
     elif prop == "C07":
+        matrix(rng, tier, [lambda r, s_, sh: {"k": "collect_x"}], add)
+        big_jobs(rng, tier, [lambda r, s_, sh: {"k": "collect_x"}], add)
         for _ in range(n):
             add(with_term(rng, lambda r, s, sh: {"k": "collect_x"}))
     elif prop == "C08":
@@ -142,6 +208,7 @@ def jobs_for(prop, tier, seed):
             add(with_term(rng, lambda r, s, sh: any_term(r, s, sh), nt=nt,
                           sizes=(0, 1, 2, 3, 5, 8, 13, 24, 40, 64)))
     elif prop == "C09":
+        matrix(rng, tier, [lambda r, s_, sh: any_term(r, s_, sh, ordered=True), lambda r, s_, sh: reduce_term(r, s_, sh, ordered=True)], add, nt1=True)
         for _ in range(n):
             p = with_term(rng, lambda r, s, sh: any_term(r, s, sh, ordered=True), nt=1)
             add(p, "free")
@@ -197,6 +264,7 @@ def jobs_for(prop, tier, seed):
             p["term"] = {"k": "none" if big else rng.choice(["count", "collect_vec", "first", "none"])}
             add(norm(p), "free")
     elif prop == "C13":
+        matrix(rng, tier, [lambda r, s_, sh: any_term(r, s_, sh)], add)
         for _ in range(n):
             add(with_term(rng, lambda r, s, sh: any_term(r, s, sh), sources=OWNING + ("slice", "range")))
     elif prop == "C14":
